@@ -18,7 +18,8 @@ PROP = {
                    "quiescence — all data provided, program unfinished, runtime thread asleep (state S, no context switch, five "
                    "looks): an unrelated I/O completion (kick) that lets it finish proves a reaped completion whose wake-up was "
                    "lost; data still unread in a descriptor with its read pending after the kick is a stranded operation; anything "
-                   "else is inconclusive."),
+                   "else is inconclusive."
+                   " Builds: the fusion build (both drivers in one binary) carries the bulk of the runs; the legs `iour-only` / `poll-only` repeat the workloads with compio-driver compiled for a single driver (io-uring only is the default build of compio), so the #[cfg(not(fusion))] glue is exercised too, at a smaller volume."),
     "technique": "runtime monitoring: tagged-data conservation oracle + event-log exactly-once checker over seeded operation soups",
     "rule": SOUP_RULE + "; C02 weighting: 2-12 ops, readiness/poll/pop dominated schedules, completion bursts; rt legs: a case is one "
              "program, distinct = (driver, queue-capacity class, op kind, awaited in main future / task, data ready at submit / "
@@ -36,6 +37,24 @@ PROP = {
          "timeout_s": {"quick": 240, "thorough": 900}},
         {"name": "rt-asan", "build": "asan", "pkg": "vdrv", "cmd": "c02r", "shards": 2,
          "args": {"quick": ["--iters", 300, "--budget-ms", 45000], "thorough": ["--iters", 8000, "--budget-ms", 420000]},
+         "timeout_s": {"quick": 240, "thorough": 900}},
+        # single-driver configuration (the default build of compio): the #[cfg(not(fusion))] glue of compio-driver
+        {"name": "iour-only", "build": "plain-iour", "pkg": "vdrv", "cmd": "c02", "shards": 3,
+         "args": {"quick": [] + ["--driver", "iour", "--iters", 150, "--budget-ms", 40000],
+                  "thorough": [] + ["--driver", "iour", "--iters", 3000, "--budget-ms", 300000]},
+         "timeout_s": {"quick": 240, "thorough": 900}},
+        {"name": "rt-iour-only", "build": "plain-iour", "pkg": "vdrv", "cmd": "c02r", "shards": 2,
+         "args": {"quick": ["--driver", "iour", "--iters", 500, "--budget-ms", 40000],
+                  "thorough": ["--driver", "iour", "--iters", 15000, "--budget-ms", 300000]},
+         "timeout_s": {"quick": 240, "thorough": 900}},
+        # single-driver configuration (polling only): the #[cfg(not(fusion))] glue of compio-driver
+        {"name": "poll-only", "build": "plain-poll", "pkg": "vdrv", "cmd": "c02", "shards": 3,
+         "args": {"quick": [] + ["--driver", "poll", "--iters", 150, "--budget-ms", 40000],
+                  "thorough": [] + ["--driver", "poll", "--iters", 3000, "--budget-ms", 300000]},
+         "timeout_s": {"quick": 240, "thorough": 900}},
+        {"name": "rt-poll-only", "build": "plain-poll", "pkg": "vdrv", "cmd": "c02r", "shards": 2,
+         "args": {"quick": ["--driver", "poll", "--iters", 500, "--budget-ms", 40000],
+                  "thorough": ["--driver", "poll", "--iters", 15000, "--budget-ms", 300000]},
          "timeout_s": {"quick": 240, "thorough": 900}},
     ],
 }
